@@ -72,13 +72,14 @@ class Scripted:
     world = None
 
     def __init__(self, server, **kw):
-        self.server = server
+        self.server = server                          # as given (what HashClient's bookkeeping sees)
+        self.ident = (server[0], int(server[1]))      # the server it is
 
     def _do(self, name):
         w = Scripted.world
-        f = w["failing"].get(self.server)
-        w["contacts"].append((w["clock"].now, self.server, name, f is not None, w["call"]))
-        ORDER.append(("contact", "%s:%s" % self.server, f is not None))
+        f = w["failing"].get(self.ident)
+        w["contacts"].append((w["clock"].now, self.ident, name, f is not None, w["call"]))
+        ORDER.append(("contact", "%s:%s" % self.ident, f is not None))
         if f is not None:
             raise f
 
@@ -192,6 +193,12 @@ def check(case):
     backend = case.get("backend", "scripted")
     events = case["events"]
     servers = [("s%d" % i, 11211) for i in range(ns)]
+    style = 0 if case.get("aws") else case.get("addr_style", 0)
+    if style:
+        # equivalent spellings of the configuration: servers that share a host name and differ in the port, the port given
+        # as a number for some and as text for others (1), or everything as 'host:port' strings (2)
+        servers = [("s", 11211 + i) for i in range(ns)]
+    config = [(h, str(p)) if (style == 1 and i % 2 == 0) else ("%s:%d" % (h, p) if style == 2 or (style == 3 and i % 2) else (h, p)) for i, (h, p) in enumerate(servers)]
     names = [name(s) for s in servers]
     owner = owned_keys(names)
     key_of = {n: k for k, n in owner.items()}
@@ -207,7 +214,7 @@ def check(case):
 
             class HC(HashClient):
                 client_class = Scripted
-            hc = HC(servers, hasher=(make_minimal_hash if case.get("hasher") == "minimal" else make_loghash)(routes), retry_attempts=ra, retry_timeout=RT, dead_timeout=DT, ignore_exc=ie)
+            hc = HC(config, hasher=(make_minimal_hash if case.get("hasher") == "minimal" else make_loghash)(routes), retry_attempts=ra, retry_timeout=RT, dead_timeout=DT, ignore_exc=ie)
         else:
             env = Env(addrs=servers)
             for srv_ in env.servers:
@@ -231,7 +238,7 @@ def check(case):
                 hc = AWSElastiCacheHashClient("cfg.example.com:11211", use_vpc=True, **hkw)
                 world["mark0"] = len(env.net.log)
             else:
-                hc = HashClient(servers, **hkw)
+                hc = HashClient(config, **hkw)
         return _run(case, hc, servers, names, owner, key_of, routes, world, env, clock)
     finally:
         H.time = saved_time
@@ -548,8 +555,8 @@ def two_outage_cases(tier, seed):
                     order = (0, 1, 2) if (mask + p) % 2 else (1, 2, 0)
                     ev += [["op", "get" if (mask >> 1) % 3 else "set", si] for si in order]
                 ra = (mask + i) % 3 if tier == "thorough" else (0 if (mask + j) % 3 else 1)
-                yield {"servers": 3, "retry_attempts": ra, "ignore_exc": bool((mask + i + j) % 2), "backend": "scripted", "recovery_step": 7,
-                       "events": ev, "hasher": "minimal" if mask % 5 == 0 else "subclass"}
+                yield {"servers": 3, "retry_attempts": ra, "ignore_exc": bool((mask + i + j) % 2), "backend": "scripted" if (mask + j) % 7 else "real", "recovery_step": 7,
+                       "events": ev, "hasher": "minimal" if mask % 5 == 0 else "subclass", "addr_style": (mask + i) % 4}
 
 
 def real_train_cases(tier, seed):
@@ -601,7 +608,7 @@ def history_strategy(tier):
         st.tuples(st.just("fail"), st.integers(0, 2), st.sampled_from(sorted(ERR))).map(list),
         st.tuples(st.just("heal"), st.integers(0, 2)).map(list))
     return st.fixed_dictionaries({"servers": st.sampled_from([1, 2, 2, 3]), "recovery_op": st.sampled_from(["get", "set_many", "get_many", "delete"]), "hasher": st.sampled_from(["subclass", "minimal"]), "retry_attempts": st.sampled_from([0, 1, 2]), "ignore_exc": st.booleans(),
-                                  "backend": st.sampled_from(["scripted", "scripted", "real"]), "aws": st.booleans(), "events": st.lists(ev, min_size=1, max_size=40)})
+                                  "backend": st.sampled_from(["scripted", "scripted", "real"]), "aws": st.booleans(), "addr_style": st.sampled_from([0, 0, 1, 2, 3]), "events": st.lists(ev, min_size=1, max_size=40)})
 
 
 PARTS = [
